@@ -60,6 +60,9 @@ def quantize(model, modules=None, **kwargs):
 def requantize(model, state_dict):
     # find device that model is on
     device = next(model.parameters()).device
+    # the non-persistent buffers are not in the state_dict: keep them, as they would be lost on the meta device
+    persistent = set(model.state_dict().keys())
+    buffers = {name: buffer for name, buffer in model.named_buffers() if name not in persistent}
 
     # empty the model params by moving to the meta device, then quantize
     model.to(torch_device("meta"))
@@ -68,6 +71,9 @@ def requantize(model, state_dict):
     # move the quantized but empty model to cpu then load the state_dict
     model.to_empty(device=torch_device("cpu"))
     model.load_state_dict(state_dict)
+    for name, buffer in buffers.items():
+        module_name, _, buffer_name = name.rpartition(".")
+        model.get_submodule(module_name)._buffers[buffer_name] = buffer.to("cpu")
 
     # move the model back to the original device
     model.to(device)
